@@ -93,7 +93,14 @@ func (c *Ctx) Model(exe string) (*ModelProc, error) {
 }
 
 func (c *Ctx) Violate(v Violation) {
-	if len(c.Violations) < 50 {
+	// at most 2 witnesses per signature, so that a frequent (possibly known) finding cannot crowd out others
+	n := 0
+	for _, x := range c.Violations {
+		if x.Signature == v.Signature && x.Kind == v.Kind {
+			n++
+		}
+	}
+	if n < 2 && len(c.Violations) < 300 {
 		c.Violations = append(c.Violations, v)
 	}
 }
